@@ -302,12 +302,15 @@ def check(ctx: Ctx) -> None:
         se = repo.func("gateway_bootstrap.sendexec")
         from ..terms import const as _c, evaluator as _ev
         va = se.node.args.vararg.arg if se.node.args.vararg is not None else None
-        line = ("bin", "Add", ("pcall", "repr", (("pcall", ("meth", _c("\n"), "join"), (("sym", va),), ()),), ()), _c("\n"))
+        from ..terms import string_pieces as _pieces
+        want_line = [("repr", ("pcall", ("meth", _c("\n"), "join"), (("sym", va),), ())), "\n"]
         good = False
         evse = _ev(repo, se)
         for (_p, st_) in evse.run():
             wr = [e for e in st_.events if e.kind == "call" and e.attr == "write"]
-            good = len(wr) == 1 and len(wr[0].args) == 1 and wr[0].args[0][0] == "pcall" and wr[0].args[0][1] == ("meth", line, "encode")
+            a0 = wr[0].args[0] if len(wr) == 1 and len(wr[0].args) == 1 else None
+            good = a0 is not None and a0[0] == "pcall" and isinstance(a0[1], tuple) and a0[1][0] == "meth" and a0[1][2] == "encode" \
+                and _pieces(a0[1][1]) == want_line and (a0[2][:1] in ((), (_c("utf-8"),), (_c("utf8"),)))
         ob.site(se, se.node, "sendexec writes repr(source) + newline", ok=good)
         if not good:
             ob.violation(se, se.node, "sendexec no longer sends one repr()'d line")
